@@ -422,8 +422,10 @@ def check(case):
     if not acc:
         e = tr[pos]
         name = ACCEPT_CLAUSE.get((e[1], e[2]) if e[1] == K_W else e[1], "model:event_%d" % e[1])
-        kind = "oracle" if name == "close_left_job_unsettled" else "corr"
-        return dict(res, ok=False, kind=kind, clause=name, sig=dict(sig, clause=name),
+        # a rejection that contradicts a theorem about the jobs' fate ((b), (c), (d), poll / value clauses) is a failure of the
+        # property; one about the harness protocol (gather / close / submit nesting) only says that model and code disagree
+        kind = "corr" if e[1] in (K_SUBMIT, K_GIN, K_GOUT, K_CIN, K_RETURN, K_AGAIN, K_S) else "oracle"
+        return dict(res, ok=False, kind=kind, clause=name, sig=dict(mode=mode, clause=name),
                     detail=dict(position=pos, code=code, event=e, event_text=describe(e), context=[describe(x) for x in tr[max(0, pos - 25):pos + 3]], njobs=njobs, table=table[:40]))
     if phase != 5:
         return dict(res, ok=False, kind="corr", clause="model:not_returned", sig=dict(sig, clause="model:not_returned"), detail=dict(phase=phase))
@@ -537,4 +539,4 @@ def streams(tier):
     # every (mode, backend) pair occurs: thread and serial twice per round, process once (loky: thorough only)
     backs = ("serial", "thread", "process", "thread", "serial") + (("loky",) if th else ())
     pairs = [(m, b) for b in backs for m in MODES]
-    return [Stream("timeout_searches", gen(126 if th else 35, pairs), check, shrink, timeout=180)]
+    return [Stream("timeout_searches", gen(252 if th else 35, pairs), check, shrink, timeout=180)]
